@@ -326,7 +326,7 @@ pub fn build_case(seed: u64, i: usize, thorough: bool) -> Built {
         // in every position an expression can be written in
         knobs.odd_permille = *r_proj.pick(&[0, 0, 0, 15, 60]);
         knobs.odd_names = r_proj.chance(1, 3);
-        let shape = ProjectShape { max_files: 3, max_defs: if thorough { 6 } else { 5 }, with_main: true, pragma_always: false, name_suffix: String::new() };
+        let shape = ProjectShape { max_files: 3, min_defs: 1, max_defs: if thorough { 6 } else { 5 }, with_main: true, pragma_always: false, name_suffix: String::new() };
         let p = gen::gen_project(&mut r_proj, &knobs, &shape);
         let mut style = Style::random(&mut r_style);
         style.hostile_comments = r_style.chance(1, 6);
